@@ -150,11 +150,13 @@ pub async fn restore(
             }
             Kind::Symlink => {
                 monitor.count(Counter::Symlinks, 1);
+                // Remember it even if creating it fails: whatever is at that path, the
+                // entries below it do not belong there.
+                restored_symlinks.insert(entry.apath.to_string());
                 if let Err(err) = restore_symlink(&path, &entry) {
                     monitor.error(err);
                     continue;
                 }
-                restored_symlinks.insert(entry.apath.to_string());
             }
             Kind::Unknown => {
                 monitor.error(Error::InvalidMetadata {
